@@ -144,6 +144,13 @@ func ApproveRegisterSideChain(native *native.NativeService) ([]byte, error) {
 	if registerSideChain == nil {
 		return utils.BYTE_FALSE, fmt.Errorf("ApproveRegisterSideChain, chainid is not requested")
 	}
+	sideChain, err := GetSideChain(native, params.Chainid)
+	if err != nil {
+		return utils.BYTE_FALSE, fmt.Errorf("ApproveRegisterSideChain, getSideChain error: %v", err)
+	}
+	if sideChain != nil {
+		return utils.BYTE_FALSE, fmt.Errorf("ApproveRegisterSideChain, chainid already registered")
+	}
 
 	//check consensus signs
 	ok, err := node_manager.CheckConsensusSigns(native, APPROVE_REGISTER_SIDE_CHAIN, utils.GetUint64Bytes(params.Chainid),
